@@ -12,7 +12,7 @@ from oracles.treecheck import Walk
 from vlib.core import Leg, Result, exc_failure
 
 ID = 'C07'
-RULE = ('cases: (text, valid documented option set) with text from all sources incl. damaged grammar scripts, procedural scripts and mutated corpus; '
+RULE = ('leg comment-led: statement-leading comment x 27 followers (joiners, clauses, operators, closers) x 6 option sets, first or later statement, enumerated. cases: (text, valid documented option set) with text from all sources incl. damaged grammar scripts, procedural scripts and mutated corpus; '
         'format/split(+-strip_semicolon)/parse/parsestream are called and every public read-only accessor is called on every node of the parsed tree '
         '(generators drained); only SQLParseError may escape. Second leg enumerates the table of invalid option values: format() must raise '
         'SQLParseError without reading the input stream. non-trivial: text yields >=1 group node and (>=2 options or an accessor-bearing node class); '
@@ -109,7 +109,7 @@ def check(case):
 
 
 def _strategy(tier):
-    return st.tuples(O.valid_options(), sources.any_text(tier, weights=(2, 3, 3, 2, 5, 2, 2, 2, 3, 2))).map(lambda t: {'text': t[1], 'opts': t[0]})
+    return st.tuples(O.valid_options(), sources.any_text(tier, weights=(2, 3, 3, 2, 4, 2, 2, 2, 6, 3))).map(lambda t: {'text': t[1], 'opts': t[0]})
 
 
 class Recording(io.StringIO):
@@ -154,6 +154,25 @@ def _dict_enum(tier):
         yield {'text': text, 'opts': [{}, {'reindent': True}, {'reindent_aligned': True, 'strip_comments': True}, {'use_space_around_operators': True, 'keyword_case': 'upper'}][i % 4]}
 
 
-LEGS = [Leg('dictionary', check=check, enumerate=_dict_enum, exhaustive=True),
+LED_COMMENTS = ['/* c */', '-- remark\n', '/*+ hint */', '# c\n', '/* a */ /* b */']
+LED_FIRST = ['as x', 'AS', ':: int', ':= 1', '. b', '= 1', '+ 1', ', b', 'x', 'a.b', '( 1 )', 'and b', 'over ( )', 'in ( 1 )', 'like b', 'desc', '[ 1 ]',
+             'case when a then b end', 'end', "at time zone 'utc'", 'between 1 and 2', 'union select 1', ') x', 'from t', 'where a', 'order by a', 'values ( 1 )']
+LED_OPTS = [{'strip_comments': True}, {'strip_comments': True, 'strip_whitespace': True}, {'strip_comments': True, 'reindent': True}, {'reindent_aligned': True},
+            {'use_space_around_operators': True, 'strip_comments': True}, {}]
+
+
+def _comment_led(tier):
+    """a statement (first or later) that starts with a comment directly followed by a joiner / clause / operator: the shapes
+    in which grouping makes the leading comment the first child of a nested group; enumerated completely"""
+    for pre in ['', 'select 1; ']:
+        for cm in LED_COMMENTS:
+            for gap in ['', ' ']:
+                for first in LED_FIRST:
+                    for opts in LED_OPTS:
+                        yield {'text': pre + cm + gap + first, 'opts': opts}
+
+
+LEGS = [Leg('comment-led', check=check, enumerate=_comment_led, exhaustive=True),
+        Leg('dictionary', check=check, enumerate=_dict_enum, exhaustive=True),
         Leg('text', check=check, strategy=_strategy, examples={'quick': 16000, 'thorough': 400000}),
         Leg('invalid', check=check_invalid, enumerate=_invalid_cases, exhaustive=True, max_shards=2)]
